@@ -33,7 +33,7 @@ CFG = {
 }
 
 MANIFEST = {
-    "text": ("The statement sequence of upconvert_ufov1_robofab_data is translated on every run into a (robofab entry, target, conversion) table; it is proved equal to the table the model folds over (source_robofab_table_eq_model, decide), so that the fold of the translated statements is the model's hint conversion for every input (source_robofab_statements_are_applyHints, source_robofab_load_runs_table), and every row converts as the specification's table prescribes - zone lists flattened, everything else copied, entry types, feature-key roles, keys read = keys removed (source_robofab_conversions_are_spec, source_robofab_row_value_is_spec). The legacy conversion is a table (legacy attribute, format-3 attribute, value conversion) regenerated from the Rust struct "
+    "text": ("The statement sequence of upconvert_ufov1_robofab_data is translated on every run into a (robofab entry, target, conversion) table; it is proved equal to the table the model folds over (source_robofab_table_eq_model, decide), so that the fold of the translated statements is the model's hint conversion for every input (source_robofab_statements_are_applyHints, source_robofab_load_runs_table), and every row converts as the specification's table prescribes - zone lists flattened, everything else copied, entry types, feature-key roles, keys read = keys removed (source_robofab_conversions_are_spec, source_robofab_row_value_is_spec). The feature statements are interpreted as well: for every robofab lib (classes, blocks, an order list that is complete, incomplete, with repeated or unknown tags, or none) the text assembled by folding the translated statements is the model's featureText (source_robofab_features_eq_model), and it does not depend on the iteration order of the block map (source_robofab_features_deterministic, source_robofab_model_text_deterministic). The legacy conversion is a table (legacy attribute, format-3 attribute, value conversion) regenerated from the Rust struct "
              "literals on every run; theorems (kernel-checked, `decide`) state that the regenerated format-1 and format-2 tables and the three "
              "enumeration tables equal the specification's tables typed in independently, that no two legacy attributes land on one format-3 "
              "attribute, that unknown enumeration values are errors for ALL codes, that weightValue -1 is dropped, that rounding is within 1/2 "
@@ -42,6 +42,6 @@ MANIFEST = {
              "by save. Generated v1/v2 UFO trees through Font::load tie the model to the code; the specification relation is evaluated on the "
              "implementation's own output."),
     "design_ref": "5 / C14, 3.5",
-    "note": "trusted: Lean kernel, three standard axioms, extractor, harness/driver glue, spec tables typed from memory; hint_data_moved is OPEN as a theorem (covered by the oracle)",
+    "note": "trusted: Lean kernel, three standard axioms, extractor, harness/driver glue, spec tables typed from memory; all listed theorems proved",
     "technique": "Lean 4 theorems over extracted tables (decide) + general lemmas (rounding, error propagation, composition with C13) + attribute-exhaustive correspondence through Font::load",
 }
